@@ -143,6 +143,41 @@ pub fn guarded<R>(f: impl FnOnce() -> R) -> (Option<R>, Ended) {
     }
 }
 
+// ---- wall-clock watchdog for single cases (assembling one text, lexing one text, one key sequence) ----
+static CASE: std::sync::Mutex<Option<(std::time::Instant, String)>> = std::sync::Mutex::new(None);
+static MONITOR: std::sync::Once = std::sync::Once::new();
+
+/// Mark the start of one case.  If it is still running VERIF_WATCHDOG seconds later (default 120; cases take micro- to
+/// milliseconds) the process writes `{"hang": <description>}` to $VERIF_HANG_FILE and exits with status 3: the code
+/// under test does not terminate on that input.
+pub fn case_begin(desc: &str) {
+    MONITOR.call_once(|| {
+        std::thread::spawn(|| {
+            let limit: u64 = std::env::var("VERIF_WATCHDOG").ok().and_then(|v| v.parse().ok()).unwrap_or(120);
+            loop {
+                std::thread::sleep(std::time::Duration::from_millis(500));
+                let hung = match &*CASE.lock().unwrap() {
+                    Some((t, d)) if t.elapsed().as_secs() >= limit => Some(d.clone()),
+                    _ => None,
+                };
+                if let Some(d) = hung {
+                    let body = serde_json::json!({"hang": d, "secs": limit}).to_string();
+                    if let Ok(path) = std::env::var("VERIF_HANG_FILE") {
+                        let _ = std::fs::write(path, &body);
+                    }
+                    eprintln!("HARNESS WATCHDOG: case still running after {limit}s: {body}");
+                    std::process::exit(3);
+                }
+            }
+        });
+    });
+    let short: String = desc.chars().take(4000).collect();
+    *CASE.lock().unwrap() = Some((std::time::Instant::now(), short));
+}
+pub fn case_end() {
+    *CASE.lock().unwrap() = None;
+}
+
 /// Run a closure on a fresh thread (fresh thread-locals: features, symbol table, minimal flag).
 pub fn on_fresh_thread<R: Send + 'static>(f: impl FnOnce() -> R + Send + 'static) -> R {
     std::thread::Builder::new()
